@@ -1360,12 +1360,12 @@ def cases(ctx):
     rng = ctx.rng
     yield from misc_cases(ctx, rng)
     yield from exhaustive_cases(ctx, rng)
-    yield from valid_cases(ctx, rng, ctx.n(500, 4500))
-    yield from must_error_cases(ctx, rng, ctx.n(400, 3000))
-    yield from fault_cases(ctx, rng, ctx.n(500, 4500))
-    yield from malformed_cases(ctx, rng, ctx.n(400, 4500))
+    yield from valid_cases(ctx, rng, ctx.n(400, 4500))
+    yield from must_error_cases(ctx, rng, ctx.n(350, 3000))
+    yield from fault_cases(ctx, rng, ctx.n(400, 4500))
+    yield from malformed_cases(ctx, rng, ctx.n(300, 4500))
     yield from feed_cases(ctx, rng, ctx.n(200, 2000))
-    yield from refresh_cases(ctx, rng, ctx.n(250, 2500))
+    yield from refresh_cases(ctx, rng, ctx.n(200, 2500))
     yield from top_cases(ctx, rng, ctx.n(120, 800))
 
 
